@@ -3,14 +3,41 @@
 // Contracts for package gokaitai (Kaitai-generated readers), read by the govc verifier (/verif). Comments only.
 package gokaitai
 
-// vlqVal(v): the integer a parsed base-128 varint stands for (what Value() computes from its groups; assumed, generated code).
-//@ spec func vlqVal(v Ref) Int
+// vlqVal(v): the integer a parsed base-128 varint stands for: 7 value bits per group, least significant group first, at most
+// eight groups contribute (the schema's documented limit).
+//@ spec func vlqG(v *VlqBase128Le, k Int) Int = k < len(v.Groups) ? v.Groups[k].B % 128 : 0
+//@ spec func vlqVal(v *VlqBase128Le) Int = vlqG(v, 0) + vlqG(v, 1) * 128 + vlqG(v, 2) * 16384 + vlqG(v, 3) * 2097152 + vlqG(v, 4) * 268435456 +
+//@      vlqG(v, 5) * 34359738368 + vlqG(v, 6) * 4398046511104 + vlqG(v, 7) * 562949953421312
+
+// the memo fields of the generated code hold what they stand for
+//@ spec func grpRI(g *VlqBase128Le_Group) Bool = g != nil && (g._f_value ==> g.value == g.B % 128)
+//@ spec func vlqRI(v *VlqBase128Le) Bool = v != nil && len(v.Groups) >= 1 &&
+//@      (forall k Int :: 0 <= k && k < len(v.Groups) ==> grpRI(v.Groups[k])) &&
+//@      (v._f_len ==> v.len == len(v.Groups)) && (v._f_value ==> v.value == vlqVal(v))
+
+//@ func (*VlqBase128Le_Group).Value
+//@   props C20
+//@   requires grpRI(this)
+//@   ensures [seven-value-bits] r1 == nil && r0 == this.B % 128 && grpRI(this)
+//@   modifies this._f_value, this.value
+//@   safety on
+
+//@ func (*VlqBase128Le).Len
+//@   props C20
+//@   requires this != nil && (this._f_len ==> this.len == len(this.Groups))
+//@   ensures [number-of-groups] r1 == nil && r0 == len(this.Groups) && (this._f_len ==> this.len == len(this.Groups))
+//@   modifies this._f_len, this.len
+//@   safety on
 
 //@ func (*VlqBase128Le).Value
-//@   assumed
-//@   ensures r1 == nil ==> r0 == vlqVal(this)
+//@   props C20
+//@   requires [memo-is-consistent] vlqRI(this)
+//@   ensures [C20:little-endian-base-128] r1 == nil && r0 == vlqVal(this)
+//@   ensures [memo-is-consistent] vlqRI(this)
+//@   ensures [other-memos-stay-consistent] forall g Ref :: old(grpRI(asType(*VlqBase128Le_Group, g))) ==> grpRI(asType(*VlqBase128Le_Group, g))
 //@   ensures vlqVal(this) >= 0
-//@   modifies this._f_value, this.value, this._f_len, this.len
+//@   modifies this._f_value, this.value, this._f_len, this.len, all(VlqBase128Le_Group._f_value), all(VlqBase128Le_Group.value)
+//@   safety on
 
 // C20: the payload length the schema derives is the length the writer stored: nothing for nil records, the compressed length
 // in compressed files, the uncompressed length otherwise (FileWriter.Write puts exactly these two lengths and the nil flag
@@ -21,13 +48,15 @@ package gokaitai
 //@ func (*RecordioV4_Record).LenPayload
 //@   props C20
 //@   replay kaitai_roundtrip
-//@   bounded kaitai_roundtrip Kaitai reader vs. native reader: all record sequences of length <= 2 over 6 record kinds (nil, empty, 1 byte, marker bytes, 240 and 300 bytes) plus the full list, all 4 compression codes; record count, nil flags, stored payload decoded with the codec the schema names
+//@   bounded kaitai_roundtrip Kaitai reader vs. native reader: all record sequences of length <= 2 over 6 record kinds (nil, empty, 1 byte, marker bytes, 240 and 300 bytes) plus the full list and one file with stored lengths on both sides of the 1|2, 2|3 and 3|4 varint group boundaries (127 .. 2097152 bytes), all 4 compression codes; record count, nil flags, stored payload decoded with the codec the schema names
 //@   requires this.UncompressedPayloadLen != nil && this.CompressedPayloadLen != nil && this._root != nil && this._root.FileHeader != nil
+//@   requires [memo-is-consistent] vlqRI(this.UncompressedPayloadLen) && vlqRI(this.CompressedPayloadLen)
 //@   requires [memo-is-consistent] this._f_lenPayload ==> this.lenPayload == storedLen(this)
 //@   ensures [C20:length-the-writer-stored] r1 == nil ==> r0 == storedLen(this)
 //@   ensures [memo-is-consistent] this._f_lenPayload ==> this.lenPayload == storedLen(this)
 //@   modifies this._f_lenPayload, this.lenPayload, this.UncompressedPayloadLen._f_value, this.UncompressedPayloadLen.value, this.UncompressedPayloadLen._f_len,
-//@            this.UncompressedPayloadLen.len, this.CompressedPayloadLen._f_value, this.CompressedPayloadLen.value, this.CompressedPayloadLen._f_len, this.CompressedPayloadLen.len
+//@            this.UncompressedPayloadLen.len, this.CompressedPayloadLen._f_value, this.CompressedPayloadLen.value, this.CompressedPayloadLen._f_len, this.CompressedPayloadLen.len,
+//@            all(VlqBase128Le_Group._f_value), all(VlqBase128Le_Group.value)
 
 // the compression codes of the schema are the codes the writer emits (recordio.CompressionType*, same literals in package recordio)
 //@ lemma kaitai_compression_codes:
